@@ -205,14 +205,21 @@ def run_diff(fe, state, pkt_name, hdrs):
 REASONS = [0, 1, 50, 100, 150, 255, 256, 65535, 65536, 2 ** 32 - 1, 2 ** 32, 2 ** 64 - 1]
 
 
+NACK_DIGEST = bytes([1, 32]) + bytes(range(100, 132))
+
+
 def run_nack(fe, reason, target, hdrs=()):
     viol = []
     w = World(fe, 'handlers')
     for key, uri, cbp in (('a-exact', '/n/a', False), ('a-prefix', '/n/a', True), ('b', '/n/b', False)):
         w.callers[key] = w.loop.create_task(w._caller(key, uri, cbp))
+    # an Interest naming a packet by its implicit digest: a Nack names it with the digest component
+    dname = enc.Name.from_str('/n/a') + [NACK_DIGEST]
+    w.callers['a-digest'] = w.loop.create_task(w._caller('a-digest', dname, False))
     w.loop.drain()
     w.base_sent = len(w.face.sent)
-    inner = bytes(enc.make_interest(target, enc.InterestParam(nonce=5, lifetime=50, can_be_prefix=False)))
+    tname = enc.Name.from_str('/n/a') + [NACK_DIGEST] if target == '/n/a+digest' else target
+    inner = bytes(enc.make_interest(tname, enc.InterestParam(nonce=5, lifetime=50, can_be_prefix=False)))
     if reason is None:
         nack_hdr = ts.tlv(0x0320, b'')
     else:
@@ -223,8 +230,8 @@ def run_nack(fe, reason, target, hdrs=()):
     mid = dict(w.outcomes)
     calls_mid = list(w.calls)
     o = w.finish()
-    exp_named = {'/n/a': ('a-exact', 'a-prefix'), '/n/b': ('b',), '/h/q': ()}[target]
-    for key in ('a-exact', 'a-prefix', 'b'):
+    exp_named = {'/n/a': ('a-exact', 'a-prefix'), '/n/b': ('b',), '/h/q': (), '/n/a+digest': ('a-digest',)}[target]
+    for key in ('a-exact', 'a-prefix', 'b', 'a-digest'):
         got = mid.get(key)
         if key in exp_named:
             if reason is not None and got != f'nack:{reason}':
@@ -266,7 +273,15 @@ def run_frag(fe, pkt_name, variant):
 TOKENS = {'none': None, 't0': b'', 't1': b'\x01', 't8': bytes(range(8)), 't32': bytes(range(32)), 't33': bytes(range(33))}
 
 
-def run_tokens(kinds, order):
+def run_tokens(kinds, order, debug=False):
+    if debug:
+        from mc.ndnenv import debug_logging
+        with debug_logging():
+            return [(sg + '|debug-logging', w + ' (DEBUG logging enabled)') for sg, w in run_tokens(kinds, order)]
+    return _run_tokens(kinds, order)
+
+
+def _run_tokens(kinds, order):
     """kinds: tuple of token kinds for Interests 0..k-1; order: sequence of Interest indices to reply to (may repeat)"""
     viol = []
     loop = VLoop()
@@ -376,7 +391,7 @@ def unit(arg):
         acc.sample({'diff': [arg['fe'], arg['state'], arg['pkt']], 'last_header_subset': hdrs, 'summary(calls,outcomes,sent)': repr(summary)})
     elif k == 'nack':
         for reason in REASONS + [None]:
-            for target in ('/n/a', '/n/b', '/h/q'):
+            for target in ('/n/a', '/n/b', '/h/q', '/n/a+digest'):
                 for hdrs in ((), ('token',), ('cong', 'inface'), ('sequence',), ('sequence', 'hopcount', 'token')):
                     v, summary = run_nack(arg['fe'], reason, target, hdrs)
                     acc.evaluations += 1
@@ -405,7 +420,12 @@ def unit(arg):
         acc.sample({'frag': arg['fe'], 'variants': ['index', 'count', 'both', 'seq+both', 'seq+index']})
     else:
         for kinds, order in itertools.islice(token_cases(arg['tier']), arg['lo'], arg['hi']):
+            debug = len(kinds) <= 2        # the one- and two-Interest cases also with the library's DEBUG logging turned on
             v = run_tokens(kinds, order)
+            if debug and not v:
+                v = run_tokens(kinds, order, debug=True)
+                acc.evaluations += 1
+                acc.state_count += 1
             acc.evaluations += 1
             acc.state_count += 1
             acc.transitions += len(order)
@@ -414,7 +434,7 @@ def unit(arg):
             acc.outcome(f"token|k={len(kinds)}|{'ok' if not v else 'viol'}")
             acc.observe([kinds, order, [x[0] for x in v]])
             for sig, what in v:
-                acc.violation(sig, what, {'kind': 'token', 'kinds': list(kinds), 'order': order})
+                acc.violation(sig, what, {'kind': 'token', 'kinds': list(kinds), 'order': order, 'debug': sig.endswith('|debug-logging')})
         acc.sample({'token_kinds': list(kinds), 'reply_order': order})
     return acc
 
@@ -428,5 +448,5 @@ def replay(case):
     elif k == 'frag':
         v = run_frag(case['fe'], case['pkt'], case['variant'])
     else:
-        v = run_tokens(tuple(case['kinds']), case['order'])
+        v = run_tokens(tuple(case['kinds']), case['order'], debug=case.get('debug', False))
     return [{'sig': s, 'what': w} for s, w in v]
